@@ -54,6 +54,6 @@ def main(run, replay=None):
     extra_cases(run)
     run.exhaustive = True
     run.assumptions = [
-        "parameters and inputs on the rational lattice of Spline.tla (bins 1..3, boxes [0,1], [-1,2]->[0,4], tails 1, 3, 64)",
+        "parameters and inputs on the rational lattice of Spline.tla (bins 1..3, boxes [0,1], [-3,-1]->[-1,0], tails 1, 11/10, 64)",
         "continuity is judged on neighbours one ulp apart: a jump must stay below 64 ulp x slope bound",
     ]
